@@ -893,3 +893,252 @@ def gen_latename_schema(rng: random.Random, idx: int) -> dict:
         src = PRELUDE + "\n".join(L) + "\n"
         tags.add("scope:module")
     return {"src": src, "module": module, "tags": sorted(tags), "defloc": "latename:" + form, "idx": idx, "template": form}
+
+
+# ---------------------------------------------------------------------------
+# family "defaults": default values that the generators have to mention in the generated text
+# (omit_default comparisons, skip_defaults-like options): every kind of default object must be
+# referred to through the namespace, never through its repr
+# ---------------------------------------------------------------------------
+
+DEFAULT_ITEMS = [
+    ("int", "1"), ("str", "'s'"), ("float", "1.5"), ("bool", "True"), ("None", "None"), ("bytes", "b'x'"),
+    ("pathlib.PurePosixPath", "pathlib.PurePosixPath('/a')"), ("pathlib.Path", "pathlib.Path('/a/b')"),
+    ("ipaddress.IPv4Address", "ipaddress.IPv4Address('1.2.3.4')"), ("uuid.UUID", "uuid.UUID(int=5)"),
+    ("decimal.Decimal", "decimal.Decimal('1.25')"), ("fractions.Fraction", "fractions.Fraction(1, 3)"),
+    ("datetime.date", "datetime.date(2020, 1, 2)"), ("datetime.timedelta", "datetime.timedelta(seconds=90)"),
+    ("DE", "DE.A"), ("DF", "DF.A | DF.B"), ("DS", "DS_OBJ"), ("DN", "DN(1, 's')"), ("DC", "DC(2)"),
+    ("FrozenSet[int]", "frozenset([1])"), ("List[int]", "[1, 2]"), ("Dict[str, int]", "{'a': 1}"), ("float", "float('nan')"),
+    ("Tuple[int, str]", "(1, 's')"),
+]
+
+DEFAULTS_DECLS = """class DE(enum.Enum):
+    A = 'a'
+    B = 'b'
+class DF(enum.Flag):
+    A = 1
+    B = 2
+class DS(SerializableType):
+    def __init__(self, v=1): self.v = v
+    def __eq__(self, o): return type(o) is DS and o.v == self.v
+    def __hash__(self): return hash(self.v)
+    def _serialize(self): return self.v
+    @classmethod
+    def _deserialize(cls, value): return cls(value)
+DS_OBJ = DS(7)
+class DN(NamedTuple):
+    a: int
+    b: str
+@dataclass(frozen=True)
+class DC(DataClassDictMixin):
+    x: int = 0
+"""
+
+
+def gen_defaults_schema(rng: random.Random, idx: int) -> dict:
+    module = f"c17d_{idx}"
+    tags = set()
+    local = rng.random() < 0.25
+    L = [DEFAULTS_DECLS]
+    mixin = rng.choice(MIXINS[:4])
+    entry = rng.choice(["mixin", "mixin", "codec", "both"])
+    where = rng.choice(["config", "config", "dialect-config", "dialect-call", "dialect-codec"])
+    tags |= {"defaults-entry:" + entry, "omit_default:" + where}
+    fields = []
+    nf = rng.choice([2, 3, 4, 5])
+    for i in range(nf):
+        shape = rng.choice(["tuple", "tuple", "tuple", "tuple1", "nested-tuple", "vartuple", "scalar", "optional-tuple", "empty-tuple"])
+        items = [rng.choice(DEFAULT_ITEMS) for _ in range(rng.choice([1, 2, 3]))]
+        if shape == "scalar":
+            t, v = items[0]
+        elif shape == "tuple1":
+            t, v = f"Tuple[{items[0][0]}]", f"({items[0][1]},)"
+        elif shape == "nested-tuple":
+            t = f"Tuple[int, Tuple[{', '.join(x[0] for x in items)}]]"
+            v = f"(1, ({', '.join(x[1] for x in items)},))"
+        elif shape == "vartuple":
+            t, v = f"Tuple[{items[0][0]}, ...]", f"({items[0][1]}, {items[0][1]})"
+        elif shape == "optional-tuple":
+            t = f"Optional[Tuple[{', '.join(x[0] for x in items)}]]"
+            v = f"({', '.join(x[1] for x in items)},)"
+        elif shape == "empty-tuple":
+            t, v = "Tuple[()]", "()"
+        else:
+            t = f"Tuple[{', '.join(x[0] for x in items)}]"
+            v = f"({', '.join(x[1] for x in items)},)"
+        tags.add("default-shape:" + shape)
+        for x in items:
+            tags.add("default-item:" + x[0])
+        mutable = any(k in v for k in ("[1, 2]", "{'a': 1}")) and shape == "scalar"
+        if rng.random() < 0.5 and not mutable:
+            fields.append(f"    f{i}: {t} = {v}")
+        else:
+            fields.append(f"    f{i}: {t} = field(default_factory=lambda: {v})")
+    cfg = []
+    if where == "config":
+        cfg = ["    class Config(BaseConfig):", "        omit_default = True"]
+        if rng.random() < 0.4:
+            cfg.append("        code_generation_options = [" + rng.choice(["TO_DICT_ADD_OMIT_NONE_FLAG", "ADD_DIALECT_SUPPORT", "TO_DICT_ADD_BY_ALIAS_FLAG"]) + "]")
+    else:
+        L.append("class OD(Dialect):\n    omit_default = True")
+        if where == "dialect-config":
+            cfg = ["    class Config(BaseConfig):", "        dialect = OD"]
+        elif where == "dialect-call":
+            cfg = ["    class Config(BaseConfig):", "        code_generation_options = [ADD_DIALECT_SUPPORT]"]
+        L.append("DIALECTS.append(OD)")
+    plain = entry == "codec" or where == "dialect-codec"
+    base = "" if plain else f"({mixin})"
+    L.append("@dataclass\nclass H" + base + ":\n" + "\n".join(fields + (cfg if not plain or where == "config" else [])))
+    L.append("MAKE['H'] = lambda: H()")
+    if not plain:
+        L.append("ROOTS.append(H)")
+    if plain or entry == "both":
+        dd = "OD" if where.startswith("dialect") else "None"
+        for kind in rng.sample(["basic", "json", "orjson", "msgpack", "yaml"], rng.choice([1, 2])):
+            L.append(f"CODECS.append(({kind!r}, H, MAKE['H'], {dd}))")
+    L.append("CLASSES.extend([H, DE, DF, DS, DN, DC])")
+    if "nan" not in "".join(fields):
+        L.append("ROUNDTRIP.append(H)")
+    if local:
+        src = PRELUDE + wrap_local(L, [])
+        tags.add("scope:function")
+    else:
+        src = PRELUDE + "\n".join(L) + "\n"
+        tags.add("scope:module")
+    return {"src": src, "module": module, "tags": sorted(tags), "defloc": "defaults:" + where, "idx": idx, "template": where}
+
+
+# ---------------------------------------------------------------------------
+# family "multimod": the schema spans several user packages / modules.  Dimensions: same-named classes
+# in different modules; classes of a foreign top-level package reached only indirectly (a bare TypeVar
+# resolved in a subclass, generic arguments, strategy annotations); user modules / classes whose names
+# coincide with stdlib modules or with names living in the builder's namespace; string annotations whose
+# evaluation namespace the library picks itself (SerializableType / SerializationStrategy with
+# use_annotations under `from __future__ import annotations`).  Every schema here is supported by the
+# library: it must build, round-trip exactly and bind the annotated classes.
+# ---------------------------------------------------------------------------
+
+MM_SUBNAMES = ["models", "types", "enum", "math", "uuid", "typing", "v1", "dialect", "helpers", "field", "collections", "datetime", "config"]
+MM_CLSNAMES = ["Address", "Item", "Field", "Alias", "Dialect", "Sentinel", "Payload", "Money", "Config", "MISSING", "Discriminator",
+               "ValueSpec", "CodeBuilder", "UUID", "Decimal"]
+MM_HDR = ("from dataclasses import dataclass, field\nimport enum\nfrom typing import *\nfrom mashumaro import DataClassDictMixin\n"
+          "from mashumaro.mixins.json import DataClassJSONMixin\n")
+
+
+def _mm_class(kind: str, name: str, extra: int) -> str:
+    if kind == "dc-mixin":
+        ys = "".join(f"\n    y{i}: int = 0" for i in range(extra))
+        return f"@dataclass\nclass {name}(DataClassDictMixin):\n    x: int = {extra}{ys}"
+    if kind == "dc-plain":
+        ys = "".join(f"\n    y{i}: int = 0" for i in range(extra))
+        return f"@dataclass\nclass {name}:\n    x: int = {extra}{ys}"
+    return f"class {name}(enum.Enum):\n    A = 1\n    B = 2"
+
+
+def gen_multimod_schema(rng: random.Random, idx: int) -> dict:
+    tags = set()
+    pa, pb = f"c17m{idx}a", f"c17m{idx}b"
+    sa, sb = rng.choice(MM_SUBNAMES), rng.choice(MM_SUBNAMES)
+    depth_b = rng.choice([1, 1, 2])                      # pkg.sub or pkg.sub.inner
+    ma = f"{pa}.{sa}"
+    mb = f"{pb}.{sb}" if depth_b == 1 else f"{pb}.{sb}.inner"
+    cn = rng.choice(MM_CLSNAMES)
+    cn_b = cn if rng.random() < 0.7 else rng.choice(MM_CLSNAMES)
+    kind = rng.choice(["dc-mixin", "dc-mixin", "dc-plain", "enum"])
+    tags |= {"mm-sub:" + sa, "mm-sub:" + sb, "mm-class:" + cn, "mm-kind:" + kind, "mm-same-name:" + str(cn == cn_b)}
+    shape = rng.choice(["same-name", "same-name", "typevar-foreign", "typevar-foreign", "string-annotations", "string-annotations", "mixed"])
+    tags.add("mm-shape:" + shape)
+    future = shape in ("string-annotations", "mixed") and rng.random() < 0.8
+    aux = [[pa, ""], [ma, MM_HDR + _mm_class(kind, cn, 1) + "\n"], [pb, ""]]
+    if depth_b == 2:
+        aux.append([f"{pb}.{sb}", ""])
+    aux.append([mb, MM_HDR + _mm_class(kind, cn_b, 2) + "\n"])
+    val = "{r}.A" if kind == "enum" else "{r}()"
+
+    imports = []
+    # how the main module refers to the two classes
+    style_a = rng.choice(["from-class", "dotted", "from-sub-bare", "from-sub-alias"])
+    if style_a == "from-sub-bare" and sa == "field":
+        style_a = "from-sub-alias"       # the main module itself calls dataclasses.field below
+    style_b = rng.choice(["from-class-as", "dotted", "from-sub-alias"])
+    tags |= {"mm-import-a:" + style_a, "mm-import-b:" + style_b}
+    if style_a == "from-class":
+        imports.append(f"from {ma} import {cn}")
+        ra = cn
+    elif style_a == "dotted":
+        imports.append(f"import {ma}")
+        ra = f"{ma}.{cn}"
+    elif style_a == "from-sub-bare":
+        imports.append(f"from {pa} import {sa}")       # a user module object called e.g. `types` / `enum` / `typing`
+        ra = f"{sa}.{cn}"
+    else:
+        imports.append(f"from {pa} import {sa} as mod_a")
+        ra = f"mod_a.{cn}"
+    if style_b == "from-class-as":
+        imports.append(f"from {mb} import {cn_b} as {cn_b}_b")
+        rb = f"{cn_b}_b"
+    elif style_b == "dotted":
+        imports.append(f"import {mb}")
+        rb = f"{mb}.{cn_b}"
+    else:
+        imports.append(f"from {mb.rpartition('.')[0]} import {mb.rpartition('.')[2]} as mod_b")
+        rb = f"mod_b.{cn_b}"
+
+    mixin = rng.choice(["DataClassDictMixin", "DataClassJSONMixin", "DataClassORJSONMixin", "DataClassMessagePackMixin", ""])
+    base = f"({mixin})" if mixin else ""
+    L = []
+    holders = []
+    if shape in ("same-name", "mixed"):
+        (pt0, pv0), (pt1, pv1) = rng.choice(POSITIONS), rng.choice(POSITIONS)
+        L.append(f"@dataclass\nclass H{base}:\n    f0: {pt0.format(c=ra)}\n    f1: {pt1.format(c=rb)}\n    z: int = 0")
+        L.append(f"MAKE['H'] = lambda: H({pv0.format(v=val.format(r=ra))}, {pv1.format(v=val.format(r=rb))})")
+        L.append(f"IDENT.append((H, 'f0', {ra})); IDENT.append((H, 'f1', {rb}))")
+        holders.append("H")
+    if shape in ("typevar-foreign", "mixed"):
+        # the generic base lives with package A (or in the main module), the argument comes from package B only
+        body = rng.choice(["T", "T", "Optional[T]", "List[T]", "Dict[str, T]"])
+        bval = {"T": "{v}", "Optional[T]": "{v}", "List[T]": "[{v}]", "Dict[str, T]": "{{'k': {v}}}"}[body]
+        tags.add("mm-typevar-body:" + body)
+        env_src = f"T = TypeVar('T')\n@dataclass\nclass Envelope({(mixin + ', ') if mixin else ''}Generic[T]):\n    body: {body}\n    tag: int = 0"
+        env_src = env_src.replace("DataClassORJSONMixin", "DataClassJSONMixin").replace("DataClassMessagePackMixin", "DataClassJSONMixin")
+        if rng.random() < 0.5:
+            aux[1][1] += env_src + "\n"
+            imports.append(f"from {ma} import Envelope")
+        else:
+            L.append(env_src)
+        L.append(f"@dataclass\nclass PE(Envelope[{rb}]):\n    more: int = 1")
+        L.append(f"MAKE['PE'] = lambda: PE({bval.format(v=val.format(r=rb))})")
+        if body in ("T", "Optional[T]", "List[T]", "Dict[str, T]"):
+            L.append(f"IDENT.append((PE, 'body', {rb}))")
+        holders.append("PE")
+    if shape in ("string-annotations", "mixed"):
+        c1 = rng.choice(["list[{r}]", "Dict[str, {r}]", "{r}", "Optional[{r}]", "Tuple[{r}, int]"])
+        v1 = {"list[{r}]": "[{v}]", "Dict[str, {r}]": "{{'k': {v}}}", "{r}": "{v}", "Optional[{r}]": "{v}", "Tuple[{r}, int]": "({v}, 1)"}[c1]
+        q = (lambda a: a) if future else (lambda a: repr(a))     # string literal annotations when there is no future import
+        ann_a, ann_b = c1.format(r=ra), c1.format(r=rb)
+        L.append(f"class Group(SerializableType, use_annotations=True):\n    def __init__(self, v): self.v = v\n"
+                 f"    def _serialize(self) -> {q(ann_a)}: return self.v\n    @classmethod\n"
+                 f"    def _deserialize(cls, value: {q(ann_a)}) -> {q('Group')}: return cls(value)\n"
+                 f"    def __eq__(self, o): return type(o) is Group and o.v == self.v\n    __hash__ = None")
+        L.append(f"class St(SerializationStrategy, use_annotations=True):\n"
+                 f"    def serialize(self, value) -> {q(ann_b)}: return {v1.format(v='value')}\n"
+                 f"    def deserialize(self, value: {q(ann_b)}) -> {q(rb)}: return "
+                 + {"list[{r}]": "value[0]", "Dict[str, {r}]": "value['k']", "{r}": "value", "Optional[{r}]": "value", "Tuple[{r}, int]": "value[0]"}[c1])
+        L.append(f"@dataclass\nclass Form{base}:\n    group: Group\n    s: {rb} = field(metadata={{'serialization_strategy': St()}})")
+        L.append(f"MAKE['Form'] = lambda: Form(Group({v1.format(v=val.format(r=ra))}), {val.format(r=rb)})")
+        L.append(f"IDENT.append((Form, 's', {rb}))")
+        holders.append("Form")
+    for h in holders:
+        if mixin:
+            L.append(f"ROOTS.append({h})")
+        if not mixin or rng.random() < 0.4:
+            for kd in rng.sample(["basic", "json", "orjson", "msgpack", "yaml"], 1):
+                L.append(f"CODECS.append(({kd!r}, {h}, MAKE[{h!r}], None))")
+                tags.add("codec:" + kd)
+    L.append(f"CLASSES.extend([{ra}, {rb}])")
+    L.append(f"ROUNDTRIP.extend([{', '.join(holders)}])")
+    src = ("from __future__ import annotations\n" if future else "") + PRELUDE + "\n".join(imports) + "\n" + "\n".join(L) + "\n"
+    if future:
+        tags.add("future-annotations")
+    return {"src": src, "module": f"c17m{idx}_main", "aux": aux, "must_build": True, "tags": sorted(tags),
+            "defloc": "multimod:" + shape, "idx": idx, "template": shape}
